@@ -155,6 +155,25 @@ PROPS = {
              "For generated pools, balances, fee settings and multi-round histories every Candidate() output is accepted by a real validating transition and satisfies "
              "the stated per-transaction conditions, with edge timestamps, finalized ids in the pool and balance exhaustion constructed. Exploration.",
              "trusted base: harness set-up transaction, world snapshot reads for initial balances, MapDB; order and non-starvation are not decided", "DESIGN §6 (C37)"),
+    "C03": P("hcons", "rapid histories + small-scope enumeration over the real file WAL; every crash offset of the unsynced tail on a directory copy; reference "
+             "list oracle with a synced mark",
+             "Every torn-tail state of short unsynced tails (all byte offsets up to 96 B) and all frame-boundary neighbourhoods of long ones is recovered with the "
+             "applyRoundWAL loop and continued through up to 4 crash/recover/append cycles incl. rotated segments; recovered records must be a byte-equal prefix "
+             "containing every synced record. Exploration with exhaustive small scopes.",
+             "crash = truncation of the tail segment (prefix-persistence model); fsync and the file system are trusted; scratch on tmpfs; retention out of scope",
+             "DESIGN §4 (C03)", qt=600),
+    "C04": P("hcons", "rapid vote sequences on the real voteSet (hook), independent recount of the slot array after every add",
+             "Threshold (exactly > 2n/3), uniqueness of the reported decision and stickiness are compared against an independent recount after every step of "
+             "thousands of sequences up to n=10 with duplicates and conflicting re-votes. Exploration.",
+             "hook accessors trusted; the replacement policy without +2/3 is not judged (statement silent)", "DESIGN §4 (C04)"),
+    "C05": P("hcons", "constructed certificates with 16 bad-item classes through the wire decoder, VerifyBlock, toVoteList and a real BlockManager.Import",
+             "No explored list is accepted without > 2/3 distinct valid signers over exactly the target, the voter bitmap equals the signer set, and no list "
+             "(unrecoverable, 64-byte, duplicated, foreign, wrong-target signatures) panics. Exploration; only-if direction.",
+             "secp256k1 library trusted; BTP proofs empty; the fast-sync processBlock path is exercised by the C01 simulator", "DESIGN §4 (C05)"),
+    "C06": P("hcons", "attribute-mutated message pairs against a reference predicate, at IsConflictWith (both orders), dsmLog and DoubleSignReport PreValidate",
+             "No explored non-conflict (different signer, height, round, type, network, or identical content) is ever claimed or accepted as evidence. "
+             "Exploration; only-if direction.",
+             "stub world context for PreValidate; the DSR contract handler level is not covered", "DESIGN §4 (C06)"),
     "C07": P("hblock", "rapid: two real block managers, chosen commit-vote timestamps, single/multi-field mutations with re-derived hashes, reference-median "
              "oracle on Import",
              "Every candidate's import verdict is compared with an independent evaluation of the stated rule (height, prevID, state-required version, timestamp = "
@@ -218,6 +237,7 @@ HOOKS = {
     # /repo path (only compiled with -tags verif) -> canonical copy in /verif/hooks
     "network/verif_hooks.go": "network_verif_hooks.go",
     "consensus/verif_hooks_sim.go": "consensus_verif_hooks_sim.go",
+    "consensus/verif_hooks.go": "consensus_verif_hooks.go",
     "icon/iiss/calculator/verif_hooks.go": "calculator_verif_hooks.go",
     "icon/icsim/verif_hooks.go": "icsim_verif_hooks.go",
 }
